@@ -168,12 +168,15 @@ def run(ctx):
     # ---- the property on the implementation (failing-input search) -----------
     hits = 0
     seen_known = set()
+    shrunk = set()
     for c, r in zip(cases, runs):
         v = oracle(ctx, c, r, edges)
         if v:
             kind, fields, text = v
             small = c
-            if kind != 'stuck-after-submit-crosstalk':
+            sig = (kind, tuple(sorted(fields.items())))
+            if kind != 'stuck-after-submit-crosstalk' and sig not in shrunk and len(shrunk) < 3:
+                shrunk.add(sig)
                 def fails(cc, _k=kind):
                     rr = ctx.harness('drive_fsm.py', {'cases': [{'initial': cc['initial'], 'events': cc['events']}]})
                     vv = oracle(ctx, cc, rr['runs'][0], rr['edges'])
